@@ -1,18 +1,15 @@
-\* X02: exhaustive configuration, the code as built on a supported OS.  Two handler directories (an update
-\* choreography needs an old and a new version), two sequence numbers, Health with Threshold 2 (real: 20).
-\* The two findings' invariants are NOT listed here (see ExtHandler_stray.cfg / ExtHandler_latch.cfg).
 SPECIFICATION Spec
 CONSTANTS
-  Handlers = {"h1"}
-  Seqs = {"1", "2"}
+  Handlers = {"h1", "h2"}
+  Seqs = {"1"}
   Good = {"x0", "h1"}
   OsSupported = TRUE
-  SpawnMayFail = TRUE
-  ExternalChange = TRUE
+  SpawnMayFail = FALSE
+  ExternalChange = FALSE
   ResetDecisionOnInstall = FALSE
   Threshold = 2
-  MaxCount = 3
-  GhostCap = 4
+  MaxCount = 2
+  GhostCap = 3
 INVARIANTS
   TypeOK
   UpdateTagLifecycle
@@ -30,4 +27,5 @@ PROPERTIES
   NoUpgradeLoop
   InstallOnlyOnMismatch
   HeartbeatOnlyByService
+  ServiceReportsHealth
 CHECK_DEADLOCK TRUE
